@@ -172,14 +172,45 @@ func c13_11(c *core.Ctx, p *core.Prog) {
 // empty" is not that test.
 func c07_14(c *core.Ctx, p *core.Prog) {
 	n := 0
+	// the call that sorts the records into related data and the main record: by its shape
+	// ([]*RecordMessage in; a *RecordMessage and an error among the results), whether it is called
+	// by name or through a function-valued parameter of a shared helper
+	sorts := func(cl *ssa.Call) bool {
+		sig := cl.Call.Signature()
+		in, out, hasErr := false, false, false
+		for k := 0; k < sig.Params().Len(); k++ {
+			if isRecordMsgSlice(sig.Params().At(k).Type()) {
+				in = true
+			}
+		}
+		for k := 0; k < sig.Results().Len(); k++ {
+			t := sig.Results().At(k).Type()
+			if pt, ok := t.(*types.Pointer); ok && core.TypeName(pt.Elem()) == "RecordMessage" {
+				out = true
+			}
+			if isErr(t) {
+				hasErr = true
+			}
+		}
+		return in && out && hasErr
+	}
+	hasSort := func(f *ssa.Function) bool {
+		found := false
+		core.EachInstr(f, func(i ssa.Instruction) {
+			if cl, ok := i.(*ssa.Call); ok && sorts(cl) {
+				found = true
+			}
+		})
+		return found
+	}
 	for _, from := range methodsOf(p, pkgArrowRecord, "Consumer", "TracesFrom", "LogsFrom", "MetricsFrom") {
+		if d := delegateOf(p, from, hasSort); d != nil {
+			from = d
+		}
+		from := from
 		core.EachInstr(from, func(i ssa.Instruction) {
 			cl, ok := i.(*ssa.Call)
-			if !ok {
-				return
-			}
-			callee := cl.Call.StaticCallee()
-			if callee == nil || callee.Name() != "RelatedDataFrom" {
+			if !ok || !sorts(cl) {
 				return
 			}
 			// the *RecordMessage result
